@@ -16,6 +16,8 @@ Tie to the source
 import copy
 import hashlib
 import json
+import re
+import time
 from concurrent.futures import ThreadPoolExecutor
 
 import core
@@ -200,12 +202,13 @@ def gen(T=None):
         "(%s,%s,%s,%s,%s)" % (zt(n), zt(qi), zt(s), core.copt(su, zt), core.copt(sd, zt)) for n, qi, s, su, sd in T["ivs"]))
     core.write_gen("C16_Tab", "".join(L))
     t1.gen()   # T1: Gen/T1_music.v, Gen/T1_score.v -- definitions translated from the current source text
+    T["roots"] = gen_roots()
     return T
 
 
 def prebuild_gen(ctx):
     """Compile the table shards in parallel (coq_make is sequential; each call locks its own file)."""
-    targets = ["Gen/C16_T%d.vo" % k for k in range(NSHARDS)] + ["Gen/C16_TN.vo"]
+    targets = ["Gen/C16_T%d.vo" % k for k in range(NSHARDS)] + ["Gen/C16_TN.vo", "Gen/C16_RootsTab.vo"]
     with ThreadPoolExecutor(max_workers=core.NJOBS) as ex:
         res = list(ex.map(lambda t: core.coq_make([t]), targets))
     bad = [(t, log[-800:]) for t, (ok, log) in zip(targets, res) if not ok]
@@ -660,6 +663,770 @@ def run_driver(ctx):
             ctx.violation("Coq driver model and transpose() disagree (the Python oracle accepted the case)", kept[i])
 
 
+# ----------------------------------------------------------------------------
+# ROOTS stream: the step/alteration arithmetic used for chord roots and local keys -- process_local_key,
+# RomanNumeral(...) (find_root_note, find_bass_note), transpose_note with a fresh Interval and with the module-level
+# Roman2Interval_* entries -- as SEQUENCES of calls in one interpreter.  Every sequence is executed in a child forked
+# from a FRESH interpreter that has imported partitura and executed nothing else (fresh_server), forwards and
+# reversed; every observation is judged against (a) the diatonic arithmetic of ITS OWN arguments (Python spec below,
+# independent of the Coq model and of the library's tables) and (b) the observation of the same call alone in a
+# fresh interpreter; the observed history is replayed through the Gallina machine of Model/C16_Roots.v.
+
+SYMS = ["I", "II", "III", "III+", "IV", "V", "VI", "VII", "i", "ii", "iii", "iv", "v", "vi", "vii",
+        "viio", "N", "iio", "Ger7", "Fr7", "It"]
+# independent catalogue: which interval a degree text denotes above the tonic of a major / minor key
+CAT_MAJ = {"I": (1, "P"), "II": (2, "M"), "III": (3, "M"), "III+": (3, "M"), "IV": (4, "P"), "V": (5, "P"), "VI": (6, "M"),
+           "VII": (7, "M"), "i": (1, "P"), "ii": (2, "M"), "iii": (3, "m"), "iv": (4, "P"), "v": (5, "P"), "vi": (6, "M"),
+           "vii": (7, "M"), "viio": (7, "M"), "N": (2, "m"), "iio": (2, "M"), "Ger7": (4, "A"), "Fr7": (4, "A"), "It": (4, "A")}
+CAT_MIN = dict(CAT_MAJ, **{"III": (3, "m"), "III+": (3, "m"), "VI": (6, "m"), "VII": (7, "m")})
+DEG_NUM = {"i": 1, "ii": 2, "iii": 3, "iv": 4, "v": 5, "vi": 6, "vii": 7}
+MAJ_SCALE = [0, 2, 4, 5, 7, 9, 11]
+MIN_SCALE = [0, 2, 3, 5, 7, 8, 10]
+ALT_TXT = {-2: "--", -1: "-", 0: "", 1: "#", 2: "##"}
+TXT_ALT = {v: k for k, v in ALT_TXT.items()}
+
+
+def deg_facts(text):
+    """What the code reads from a degree text (see Model/C16_Roots.v: deg); 'weird' = the shortcut test of
+    process_local_key and the table key would disagree (digits next to a bare I) -- such texts are not sent to Coq."""
+    import re
+    stripped = text.replace("#", "").replace("b", "")
+    letters = re.sub(r"[^a-zA-Z]", "", stripped).lower()
+    return {"sym": SYMS.index(text) if text in SYMS else None, "num": DEG_NUM.get(letters),
+            "acc": text.count("#") - text.count("b"), "lower": stripped.islower(), "lower_all": text.islower(),
+            "weird": (letters == "i") != (stripped.lower() == "i")}
+
+
+def key_facts(text):
+    """(step index, alteration, written in lower case) of a key / note name; None if it has no step letter."""
+    import re
+    m = re.search(r"[a-gA-G]", text)
+    if not m:
+        return None
+    rest = text[m.end():]
+    return (STEP_IDX[m.group(0).upper()], rest.count("#") - rest.count("b") - rest.count("-"), text.islower())
+
+
+def parse_name(s):
+    """a name as the library prints it: step letter + '' / '#' / '##' / '-' / '--' -> (step index, alter, lower)"""
+    if not isinstance(s, str) or not s or s[0].upper() not in STEP_IDX or s[1:] not in TXT_ALT:
+        return None
+    return (STEP_IDX[s[0].upper()], TXT_ALT[s[1:]], s[0].islower())
+
+
+def spec_move(i, a, n, size):
+    """diatonic arithmetic without octave: step + (n-1), alteration such that the pitch class moves by size.
+    None = outside what transpose_note accepts (an alteration beyond a double accidental): nothing is demanded."""
+    if not -2 <= a <= 2:
+        return None
+    e = spec_transpose(i, a, 4, n, size, True)
+    return (e[0], e[1]) if -2 <= e[1] <= 2 else None
+
+
+def spec_degree(minor, text):
+    """(number, size in semitones) of the interval the degree denotes in a key of that mode; None = undefined"""
+    cat = CAT_MIN if minor else CAT_MAJ
+    if text in cat:
+        n, q = cat[text]
+        return (n, spec_semitones(n, q))
+    f = deg_facts(text)
+    if f["num"] is None or f["weird"]:
+        return None
+    return spec_scale_degree(minor, f["num"], f["acc"])
+
+
+def spec_scale_degree(minor, n, acc):
+    off = (MIN_SCALE if minor else MAJ_SCALE)[n - 1] + acc - MAJ_SCALE[n - 1]
+    lo = -2 if n in (1, 4, 5) else -3
+    if acc != 0 and not lo <= off <= 2:
+        return None          # Interval.change_quality refuses: nothing is demanded
+    return (n, MAJ_SCALE[n - 1] + off)
+
+
+def name_txt(i, a, lower):
+    return (STEPS7[i].lower() if lower else STEPS7[i]) + ALT_TXT[a]
+
+
+def spec_plk(loc, glob, rsa):
+    """expected result of process_local_key, or None when nothing is demanded"""
+    f, k = deg_facts(loc), key_facts(glob)
+    if k is None or f["weird"]:
+        return None
+    if f["lower"] == k[2] and f["num"] == 1 and f["acc"] == 0 and not rsa and loc.replace("#", "").replace("b", "").lower() == "i":
+        return ["ok", glob]
+    if f["num"] is None:
+        return None
+    d = spec_scale_degree(k[2], f["num"], f["acc"])
+    r = d and spec_move(k[0], k[1], d[0], d[1])
+    if not r:
+        return None
+    return ["ok", [STEPS7[r[0]], r[1]]] if rsa else ["ok", name_txt(r[0], r[1], f["lower"])]
+
+
+def spec_root(local_key, prim, sec):
+    """expected RomanNumeral.root from the object's own local_key / primary_degree / secondary_degree"""
+    k = key_facts(local_key)
+    if k is None:
+        return None
+    d2 = spec_degree(k[2], sec)
+    s1 = d2 and spec_move(k[0], k[1], d2[0], d2[1])
+    if not s1:
+        return None
+    sec_minor = sec.islower()
+    cat = CAT_MIN if sec_minor else CAT_MAJ
+    if prim in cat:
+        r = spec_move(s1[0], s1[1], cat[prim][0], spec_semitones(*cat[prim]))
+        return name_txt(r[0], r[1], False) if r else None
+    return (spec_plk(prim, name_txt(s1[0], s1[1], sec_minor), False) or [None, None])[1]
+
+
+def spec_bass(root, inv, prim):
+    k = parse_name(root)
+    if k is None:
+        return None
+    iv = {1: (3, 3 if prim.islower() else 4), 2: (5, 7), 3: (7, 10)}.get(inv)
+    if iv is None:
+        return root
+    r = spec_move(k[0], k[1], iv[0], iv[1])
+    return name_txt(r[0], r[1], False) if r else None
+
+
+def _call(f, *a, **k):
+    try:
+        v = f(*a, **k)
+    except Exception as e:
+        return ["exc", type(e).__name__]
+    if isinstance(v, tuple):
+        v = [x if isinstance(x, str) else (int(x) if hasattr(x, "__index__") else repr(x)) for x in v]
+    elif not isinstance(v, str):
+        v = repr(v)
+    return ["ok", v]
+
+
+def exec_op(op):
+    """Run one call on the tree under test; JSON-able observation."""
+    import partitura.score as S
+    import partitura.utils.music as M
+
+    k = op[0]
+    if k == "plk":
+        return _call(S.process_local_key, op[1], op[2], return_step_alter=bool(op[3])) if op[3] else _call(S.process_local_key, op[1], op[2])
+    if k == "tn":
+        return _call(lambda: M.transpose_note(op[1], op[2], S.Interval(op[3], op[4])))
+    if k == "ts":
+        tab = getattr(S, "Roman2Interval_Min" if op[1] == "min" else "Roman2Interval_Maj", None)
+        if not isinstance(tab, dict) or op[2] not in tab:
+            return ["skip"]
+        iv = tab[op[2]]
+        r = _call(M.transpose_note, op[3], op[4], iv)
+        return r + [[getattr(iv, "number", None), getattr(iv, "quality", None), getattr(iv, "direction", None)]]
+    if k == "rn":
+        try:
+            rn = S.RomanNumeral(op[1], **op[2])
+        except Exception as e:
+            return {"exc": type(e).__name__}
+        attrs = [rn.local_key, rn.primary_degree, rn.secondary_degree, rn.inversion, rn.quality]
+        out = {"attrs": [x if isinstance(x, (str, int, type(None))) else repr(x) for x in attrs],
+               "root": getattr(rn, "root", None), "bass": getattr(rn, "bass_note", None)}
+        if all(isinstance(x, str) for x in attrs[:3]) and isinstance(attrs[3], int):
+            out["root2"] = _call(rn.find_root_note)
+            if out["root2"][0] == "ok":
+                if not hasattr(rn, "root"):
+                    rn.root = out["root2"][1]
+                out["bass2"] = _call(rn.find_bass_note)
+        return out
+    if k == "plk_table":      # T2: process_local_key on its whole finite domain, in the order of Model/C16_Roots.v dom_plk
+        rows = []
+        for n, lower, acc, ki, ka, kmin, rsa in plk_domain():
+            loc, glob = plk_texts(n, lower, acc, ki, ka, kmin)
+            rows.append(exec_op(["plk", loc, glob, rsa]))
+        if op[1:] == ["twice"]:   # second sweep in reversed order in the same interpreter: must give the same graph
+            rows2 = [exec_op(["plk"] + list(plk_texts(*r[:6])) + [r[6]]) for r in reversed(plk_domain())]
+            return [rows, rows2[::-1]]
+        return [rows, rows]
+    if k == "reflect":
+        out = {}
+        for nm in ("Roman2Interval_Maj", "Roman2Interval_Min"):
+            tab = getattr(S, nm, None)
+            try:
+                out[nm] = [[kk, int(v.number), str(v.quality), str(v.direction)] for kk, v in tab.items()]
+            except Exception:
+                out[nm] = None
+        try:
+            import partitura.utils.globals as G
+            out["lk"] = {m: [[kk, int(v[0]), str(v[1])] for kk, v in G.LOCAL_KEY_TRASPOSITIONS_DCML[m].items()] for m in ("major", "minor")}
+        except Exception:
+            out["lk"] = None
+        return out
+    raise ValueError("unknown op %r" % (op,))
+
+
+NUMERALS = ["I", "II", "III", "IV", "V", "VI", "VII"]
+
+
+def plk_domain():
+    return [(n, lower, acc, ki, ka, kmin, rsa) for n in range(1, 8) for lower in (False, True) for acc in range(-2, 3)
+            for ki in range(7) for ka in range(-2, 3) for kmin in (False, True) for rsa in (False, True)]
+
+
+def plk_texts(n, lower, acc, ki, ka, kmin):
+    num = NUMERALS[n - 1].lower() if lower else NUMERALS[n - 1]
+    return ("#" * acc if acc > 0 else "b" * (-acc)) + num, name_txt(ki, ka, kmin)
+
+
+def _fresh_server():
+    """Child side.  Imports partitura, then serves JSON lines {"ops": [...]}: every request is executed in a forked
+    child (the server itself never calls the library), so each request starts from the state right after import."""
+    import os, sys, resource
+    core.setup_import_path()
+    import partitura.score  # noqa
+    import partitura.utils.music  # noqa
+    sys.stdout.write("ready\n")
+    sys.stdout.flush()
+    for line in sys.stdin:
+        line = line.strip()
+        if not line:
+            continue
+        rfd, wfd = os.pipe()
+        pid = os.fork()
+        if pid == 0:
+            os.close(rfd)
+            try:
+                resource.setrlimit(resource.RLIMIT_CPU, (120, 120))   # CPU-time guard
+                out = json.dumps([exec_op(o) for o in json.loads(line)["ops"]])
+            except BaseException as e:   # noqa
+                out = json.dumps({"server_error": "%s: %s" % (type(e).__name__, e)})
+            with os.fdopen(wfd, "w") as w:
+                w.write(out)
+            os._exit(0)
+        os.close(wfd)
+        with os.fdopen(rfd) as r:
+            data = r.read()
+        os.waitpid(pid, 0)
+        sys.stdout.write((data or json.dumps({"server_error": "child died"})) + "\n")
+        sys.stdout.flush()
+
+
+class FreshServer:
+    def __init__(self):
+        import os, subprocess, sys, threading
+        hdir = os.path.dirname(os.path.dirname(os.path.abspath(__file__)))
+        code = ("import sys; sys.path.insert(0, %r); import core; from props import c16; c16._fresh_server()" % hdir)
+        self.p = subprocess.Popen([sys.executable, "-c", code], stdin=subprocess.PIPE, stdout=subprocess.PIPE,
+                                  stderr=subprocess.DEVNULL, text=True, env=dict(os.environ, PYTHONHASHSEED="0"))
+        self.lock = threading.Lock()
+        self.cache = _REF_CACHE      # single calls in a fresh interpreter: shared by all servers of the run
+        first = self.p.stdout.readline().strip()
+        if first != "ready":
+            raise RuntimeError("fresh interpreter did not start: %r" % first)
+
+    def run(self, ops):
+        """observations of the sequence `ops` executed in one fresh interpreter state"""
+        key = json.dumps(ops)
+        if key in self.cache:
+            return self.cache[key]
+        with self.lock:
+            self.p.stdin.write(json.dumps({"ops": ops}) + "\n")
+            self.p.stdin.flush()
+            line = self.p.stdout.readline()
+        out = json.loads(line)
+        if isinstance(out, dict) and "server_error" in out:
+            raise RuntimeError(out["server_error"])
+        if len(ops) == 1:
+            self.cache[key] = out
+        return out
+
+    def ref(self, op):
+        return self.run([op])[0]
+
+    def close(self):
+        try:
+            self.p.stdin.close()
+            self.p.wait()
+        except Exception:
+            pass
+
+
+_SERVERS = []
+_REF_CACHE = {}
+import atexit
+
+
+def fresh_servers(n=1):
+    while len(_SERVERS) < n:
+        _SERVERS.append(FreshServer())
+    return _SERVERS[:n]
+
+
+def close_servers():
+    while _SERVERS:
+        _SERVERS.pop().close()
+
+
+atexit.register(close_servers)
+
+
+# ---- generator of call sequences
+KEY_ACC = ["", "", "", "", "", "#", "b", "-", "#", "b", "-", "##", "bb"]
+ACC_PRE = ["", "", "", "", "b", "#", "b", "#", "b", "#", "bb", "##"]
+FIGS = ["", "6", "64", "65", "43", "2", "7"]
+PLAIN_PRIMS = ["I", "ii", "iii", "IV", "V", "vi", "viio", "V", "i", "iio", "III+", "iv", "VI", "N", "It", "Fr7", "Ger7", "v", "VII", "II"]
+
+
+def gen_key(rng, minor=None, step=None):
+    st = step or rng.choice(STEPS7)
+    if minor is None:
+        minor = rng.random() < 0.5
+    return (st.lower() if minor else st) + rng.choice(KEY_ACC)
+
+
+def gen_degree(rng, num=None, lower=None, acc=None):
+    n = num or rng.randint(1, 7)
+    t = NUMERALS[n - 1]
+    if lower is None:
+        lower = rng.random() < 0.4
+    return (rng.choice(ACC_PRE) if acc is None else acc) + (t.lower() if lower else t)
+
+
+def gen_roots_op(rng, focus):
+    """focus = (numeral 1..7 or None, minor?, key or None): the calls of one sequence keep coming back to the same
+    degree / mode / key with different accidentals, which is what state carried between calls needs."""
+    num, minor, key = focus
+    r = rng.random()
+    k = key if key is not None and rng.random() < 0.6 else gen_key(rng, minor if rng.random() < 0.8 else None)
+    if r < 0.40:
+        if rng.random() < 0.06:
+            loc = rng.choice(["viio", "N", "V7", "iio", "III+", "Ger7", "I7", "bb", "#"])
+        else:
+            loc = gen_degree(rng, num if rng.random() < 0.8 else None)
+        return ["plk", loc, k, rng.random() < 0.3]
+    if r < 0.58:      # RomanNumeral from text (the parser decides the attributes; the oracle reads them back)
+        prim = rng.choice(PLAIN_PRIMS)
+        sec = "" if rng.random() < 0.35 else "/" + gen_degree(rng, num if rng.random() < 0.7 else None)
+        text = prim + rng.choice(FIGS) + sec
+        if rng.random() < 0.25:
+            return ["rn", k + ":" + text, {}]
+        return ["rn", text, {"local_key": k}]
+    if r < 0.80:      # RomanNumeral with explicit degrees (altered degrees reach the process_local_key fall-back)
+        prim = gen_degree(rng, num if rng.random() < 0.6 else None) if rng.random() < 0.6 else rng.choice(PLAIN_PRIMS)
+        sec = gen_degree(rng, num if rng.random() < 0.6 else None) if rng.random() < 0.7 else rng.choice(["I", "i", "V", "iv", "III", "VI"])
+        fig = rng.choice(FIGS)
+        kw = {"local_key": k, "primary_degree": prim, "secondary_degree": sec}
+        if rng.random() < 0.5:
+            kw["inversion"] = rng.choice([0, 1, 2, 3])
+        return ["rn", prim + fig + "/" + sec, kw]
+    if r < 0.90:
+        n = num if num and rng.random() < 0.7 else rng.randint(1, 7)
+        q = rng.choice([q for q in QUALS if spec_semitones(n, q) is not None])
+        return ["tn", rng.choice(STEPS7 + ["c", "b"]), rng.choice([0, 0, 1, -1, 2, -2]), n, q]
+    sym = rng.choice(SYMS)
+    return ["ts", rng.choice(["maj", "min"]), sym, rng.choice(STEPS7), rng.choice([0, 0, 1, -1, 2, -2])]
+
+
+def _vary_key(rng, k):
+    """the same key with ONE thing changed: its accidentals, its mode (case), or its step"""
+    f = key_facts(k)
+    if f is None:
+        return gen_key(rng)
+    st, r = STEPS7[f[0]], rng.random()
+    acc = k[1:] if len(k) > 1 and k[0].upper() in STEP_IDX else ""
+    if r < 0.55:
+        acc = rng.choice([a for a in ["", "#", "b", "-", "##", "bb"] if a != acc])
+        return (st.lower() if f[2] else st) + acc
+    if r < 0.8:
+        return (st if f[2] else st.lower()) + acc
+    return gen_key(rng, f[2], rng.choice([x for x in STEPS7 if x != st])).rstrip("#b-") + acc
+
+
+def _vary_degree(rng, d):
+    """the same degree with ONE thing changed: its accidentals or its case"""
+    bare = d.lstrip("#b")
+    pre = d[:len(d) - len(bare)]
+    if not bare or rng.random() < 0.65:
+        return rng.choice([a for a in ["", "b", "#", "bb", "##"] if a != pre]) + bare
+    return pre + (bare.upper() if bare.islower() else bare.lower() if bare.isupper() else bare)
+
+
+def vary_roots_op(rng, op):
+    """A call that differs from an earlier call of the sequence in exactly ONE argument -- what a memo keyed on a part of
+    the arguments, or a shared entry altered for one argument value, needs."""
+    op = copy.deepcopy(op)
+    if op[0] == "plk":
+        r = rng.random()
+        if r < 0.4:
+            op[1] = _vary_degree(rng, op[1])
+        elif r < 0.85:
+            op[2] = _vary_key(rng, op[2])
+        else:
+            op[3] = not op[3]
+    elif op[0] == "rn":
+        kw = op[2]
+        r = rng.random()
+        if "local_key" in kw and r < 0.4:
+            kw["local_key"] = _vary_key(rng, kw["local_key"])
+        elif "primary_degree" in kw and r < 0.6:
+            kw["primary_degree"] = _vary_degree(rng, kw["primary_degree"])
+        elif "secondary_degree" in kw and r < 0.8:
+            kw["secondary_degree"] = _vary_degree(rng, kw["secondary_degree"])
+        elif "primary_degree" in kw:
+            kw["inversion"] = rng.choice([i for i in (0, 1, 2, 3) if i != kw.get("inversion")])
+        elif ":" in op[1]:
+            k, t = op[1].split(":", 1)
+            op[1] = _vary_key(rng, k) + ":" + t
+        else:
+            m = re.match(r"([^0-9/]*)([0-9]*)(.*)$", op[1])
+            op[1] = m.group(1) + rng.choice([f for f in FIGS if f != m.group(2)]) + m.group(3)
+    elif op[0] == "tn":
+        r = rng.random()
+        if r < 0.4:
+            op[1] = rng.choice([x for x in STEPS7 if x != op[1].upper()])
+        elif r < 0.7:
+            op[2] = rng.choice([a for a in (-2, -1, 0, 1, 2) if a != op[2]])
+        else:
+            qs = [q for q in QUALS if spec_semitones(op[3], q) is not None and q != op[4]]
+            op[4] = rng.choice(qs)
+    else:
+        r = rng.random()
+        if r < 0.4:
+            op[1] = "min" if op[1] == "maj" else "maj"
+        elif r < 0.7:
+            op[3] = rng.choice([x for x in STEPS7 if x != op[3]])
+        else:
+            op[4] = rng.choice([a for a in (-2, -1, 0, 1, 2) if a != op[4]])
+    return op
+
+
+def gen_roots_history(rng, nops):
+    focus = (rng.randint(1, 7), rng.random() < 0.5, None) if rng.random() < 0.75 else (None, None, None)
+    if focus[0] and rng.random() < 0.6:
+        focus = (focus[0], focus[1], gen_key(rng, focus[1]))
+    ops = []
+    for _ in range(nops):
+        if ops and rng.random() < 0.35:      # an earlier call of the sequence with exactly one argument changed
+            ops.append(vary_roots_op(rng, rng.choice(ops)))
+        else:
+            ops.append(gen_roots_op(rng, focus))
+    if rng.random() < 0.35 and ops:       # identical constructions / calls, not adjacent
+        ops.append(copy.deepcopy(rng.choice(ops)))
+    return ops
+
+
+def op_txt(op):
+    if op[0] == "plk":
+        return "process_local_key(%r, %r%s)" % (op[1], op[2], ", return_step_alter=True" if op[3] else "")
+    if op[0] == "rn":
+        return "RomanNumeral(%r%s)" % (op[1], "".join(", %s=%r" % kv for kv in sorted(op[2].items())))
+    if op[0] == "tn":
+        return "transpose_note(%r, %r, Interval(%d, %r))" % (op[1], op[2], op[3], op[4])
+    return "transpose_note(%r, %r, Roman2Interval_%s[%r])" % (op[3], op[4], "Min" if op[1] == "min" else "Maj", op[2])
+
+
+def obs_txt(o):
+    if isinstance(o, dict):
+        if "exc" in o:
+            return "raises " + o["exc"]
+        return "root %r bass %r (find_root_note() %r, find_bass_note() %r; degrees %r)" % (
+            o.get("root"), o.get("bass"), (o.get("root2") or [None, None])[1], (o.get("bass2") or [None, None])[1], o.get("attrs"))
+    return "raises " + o[1] if o[0] == "exc" else ("-" if o[0] == "skip" else repr(o[1]))
+
+
+def spec_check(op, o):
+    """the observation against the diatonic arithmetic of the call's own arguments; list of messages"""
+    msgs = []
+    if op[0] == "plk":
+        e = spec_plk(op[1], op[2], bool(op[3]))
+        if e is not None and o != e:
+            msgs.append("%s -> %s, the diatonic arithmetic gives %r" % (op_txt(op), obs_txt(o), e[1]))
+    elif op[0] == "tn":
+        st = op[1].upper()
+        e = spec_move(STEP_IDX[st], op[2], op[3], spec_semitones(op[3], op[4])) if st in STEP_IDX else None
+        if e is not None and o != ["ok", [STEPS7[e[0]], e[1]]]:
+            msgs.append("%s -> %s, the diatonic arithmetic gives %r" % (op_txt(op), obs_txt(o), (STEPS7[e[0]], e[1])))
+    elif op[0] == "ts" and o[0] != "skip":
+        n, q = (CAT_MIN if op[1] == "min" else CAT_MAJ)[op[2]]
+        e = spec_move(STEP_IDX[op[3]], op[4], n, spec_semitones(n, q))
+        if o[2] != [n, q, "up"]:
+            msgs.append("module-level entry Roman2Interval_%s[%r] now reads %r, it denotes %s%d up" % ("Min" if op[1] == "min" else "Maj", op[2], o[2], q, n))
+        elif e is not None and o[:2] != ["ok", [STEPS7[e[0]], e[1]]]:
+            msgs.append("%s -> %s, the diatonic arithmetic gives %r" % (op_txt(op), obs_txt(o), (STEPS7[e[0]], e[1])))
+    elif op[0] == "rn" and isinstance(o, dict) and "attrs" in o:
+        lk, prim, sec, inv, _q = o["attrs"]
+        if "root2" in o:
+            r2 = o["root2"]
+            if o.get("root") is not None and r2 != ["ok", o["root"]]:
+                msgs.append("%s: .root is %r but find_root_note() on the same object gives %s" % (op_txt(op), o["root"], obs_txt(r2)))
+            e = spec_root(lk, prim, sec)
+            if e is not None and r2 != ["ok", e]:
+                msgs.append("%s (key %r, degree %r of %r): root %s, the diatonic arithmetic gives %r" % (op_txt(op), lk, prim, sec, obs_txt(r2), e))
+            if r2[0] == "ok" and "bass2" in o:
+                b2 = o["bass2"]
+                if o.get("bass") is not None and b2 != ["ok", o["bass"]]:
+                    msgs.append("%s: .bass_note is %r but find_bass_note() on the same object gives %s" % (op_txt(op), o["bass"], obs_txt(b2)))
+                eb = spec_bass(r2[1], inv, prim)
+                if eb is not None and b2 != ["ok", eb]:
+                    msgs.append("%s (root %r, inversion %r): bass %s, the diatonic arithmetic gives %r" % (op_txt(op), r2[1], inv, obs_txt(b2), eb))
+    return msgs
+
+
+def judge_roots(srv, ops, order="forward"):
+    """run the sequence in ONE fresh interpreter; every observation against its own arguments and against the same
+    call alone in a fresh interpreter.  Returns (messages, observations)."""
+    seq = ops if order == "forward" else ops[::-1]
+    obs = srv.run(seq)
+    msgs = []
+    for i, (op, o) in enumerate(zip(seq, obs)):
+        ref = srv.ref(op)
+        if o != ref:
+            msgs.append("call %d of the sequence, %s -> %s; the same call in a fresh interpreter -> %s (state carried over from the earlier calls %s)"
+                        % (i + 1, op_txt(op), obs_txt(o), obs_txt(ref), "; ".join(op_txt(x) for x in seq[:i])[:400]))
+        else:
+            msgs.extend(spec_check(op, o))
+    return msgs, obs
+
+
+def shrink_roots(srv, ops, order):
+    seq = ops if order == "forward" else ops[::-1]
+
+    def fails(sub):
+        try:
+            return bool(judge_roots(srv, [list(o) for o in sub], "forward")[0])
+        except Exception:
+            return False
+    try:
+        if len(seq) < 2 or not fails(seq):
+            return seq
+        return [list(o) for o in core.ddmin(seq, fails)]
+    except Exception:
+        return seq
+
+
+# ---- Coq terms
+def cdeg(text):
+    f = deg_facts(text)
+    return "(mk_deg %s %s %s %s %s)" % (core.copt(f["sym"], zt), core.copt(f["num"], zt), zt(f["acc"]), cbool(f["lower"]), cbool(f["lower_all"]))
+
+
+def ckey(k):
+    return "(%s,%s,%s)" % (zt(k[0]), zt(k[1]), cbool(k[2]))
+
+
+def cname_opt(s):
+    k = parse_name(s) if isinstance(s, str) else None
+    return "None" if k is None else "(Some %s)" % ckey(k)
+
+
+def roots_term(ops, obs):
+    """Coq term of one observed history, or None if some call is outside what the model describes."""
+    items = []
+    for op, o in zip(ops, obs):
+        if op[0] == "plk":
+            k = key_facts(op[2])
+            if k is None or deg_facts(op[1])["weird"] or not -9 < k[1] < 9:
+                return None
+            if o[0] == "exc":
+                r = "RErr"
+            elif op[3]:
+                if not (isinstance(o[1], list) and o[1][0] in STEP_IDX and isinstance(o[1][1], int)):
+                    return None
+                r = "(RPair %s %s)" % (zt(STEP_IDX[o[1][0]]), zt(o[1][1]))
+            else:
+                nm = key_facts(o[1]) if isinstance(o[1], str) else None
+                if nm is None:
+                    return None
+                r = "(RName %s)" % ckey(nm)
+            items.append("(OPlk %s %s %s, BRes %s)" % (cdeg(op[1]), ckey(k), cbool(op[3]), r))
+        elif op[0] == "tn":
+            st = op[1].upper()
+            if st not in STEP_IDX:
+                return None
+            r = "None" if o[0] == "exc" else "(Some (%s,%s))" % (zt(STEP_IDX[o[1][0]]), zt(o[1][1]))
+            items.append("(OTn %s %s %s %s, BTn %s)" % (zt(STEP_IDX[st]), zt(op[2]), zt(op[3]), zt(QUALS.index(op[4])), r))
+        elif op[0] == "ts":
+            if o[0] == "skip":
+                continue
+            r = "None" if o[0] == "exc" else "(Some (%s,%s))" % (zt(STEP_IDX[o[1][0]]), zt(o[1][1]))
+            items.append("(OTs %s %s %s %s, BTn %s)" % (cbool(op[1] == "min"), zt(SYMS.index(op[2])), zt(STEP_IDX[op[3]]), zt(op[4]), r))
+        else:
+            if isinstance(o, dict) and "exc" in o:
+                continue      # the constructor raised: no object whose degrees could be read (no call changes the tables)
+            if not isinstance(o, dict) or "root2" not in o:
+                return None
+            lk, prim, sec, inv, _q = o["attrs"]
+            k = key_facts(lk)
+            if k is None or deg_facts(prim)["weird"] or deg_facts(sec)["weird"] or not -9 < k[1] < 9:
+                return None
+            root = o["root2"][1] if o["root2"][0] == "ok" else None
+            bass = o["bass2"][1] if root is not None and o.get("bass2", ["exc"])[0] == "ok" else None
+            if (root is not None and parse_name(root) is None) or (bass is not None and parse_name(bass) is None):
+                return None
+            items.append("(ORn %s %s %s %s, BRoot %s %s)" % (ckey(k), cdeg(prim), cdeg(sec), zt(inv), cname_opt(root), cname_opt(bass)))
+    return clist(items)
+
+
+def gen_roots():
+    """T2 + reflection, from a FRESH interpreter: Gen/C16_Roots.v"""
+    srv = fresh_servers(1)[0]
+    fwd, rev = srv.run([["plk_table", "twice"]])[0]
+    refl = srv.ref(["reflect"])
+    dom = plk_domain()
+    L = [HDR.replace("From Coq Require Import ZArith List.", "From Coq Require Import ZArith List Bool.\nFrom PV Require Import Model.C16_Roots.")]
+
+    def cres(o, rsa):
+        if o[0] != "ok":
+            return "RErr"
+        if rsa:
+            return "(RPair %s %s)" % (zt(STEP_IDX.get(o[1][0], 99)), zt(o[1][1]))
+        nm = key_facts(o[1]) or (99, 0, False)
+        return "(RName %s)" % ckey(nm)
+    L.append("Definition tab_plk : list plk_row := [\n%s].\n" % ";\n".join(
+        "(%s,%s,%s,%s,%s,%s,%s,%s)" % (zt(n), cbool(lo), zt(acc), zt(ki), zt(ka), cbool(km), cbool(rsa), cres(o, rsa))
+        for (n, lo, acc, ki, ka, km, rsa), o in zip(dom, fwd)))
+
+    def ctab(rows):
+        rows = sorted(rows, key=lambda r: (SYMS.index(r[0]) if r[0] in SYMS else 99, r[0]))
+        return clist(["(%s,(%s,%s))" % (zt(SYMS.index(t) if t in SYMS else 99), zt(n), zt(QUALS.index(q) if q in QUALS and d == "up" else 99)) for t, n, q, d in rows])
+    present = bool(refl.get("Roman2Interval_Maj")) and bool(refl.get("Roman2Interval_Min"))
+    L.append("Definition refl_present : bool := %s.\n" % cbool(present))
+    L.append("Definition refl_maj : list (Z * ival) := %s.\n" % (ctab(refl["Roman2Interval_Maj"]) if present else "r2i_maj"))
+    L.append("Definition refl_min : list (Z * ival) := %s.\n" % (ctab(refl["Roman2Interval_Min"]) if present else "r2i_min"))
+    lk = refl.get("lk")
+    for m, nm in (("major", "refl_lkmaj"), ("minor", "refl_lkmin")):
+        if lk:
+            L.append("Definition %s : list (Z * ival) := %s.\n" % (nm, clist(
+                ["(%s,(%s,%s))" % (zt(DEG_NUM.get(t, 99)), zt(n), zt(QUALS.index(q) if q in QUALS else 99))
+                 for t, n, q in sorted(lk[m], key=lambda r: (DEG_NUM.get(r[0], 99), r[0]))])))
+        else:
+            L.append("Definition %s : list (Z * ival) := %s.\n" % (nm, "lk_maj" if m == "major" else "lk_min"))
+    core.write_gen("C16_RootsTab", "".join(L))
+    return {"fwd": fwd, "rev": rev, "dom": dom, "reflected": present, "lk_reflected": bool(lk)}
+
+
+def run_roots_prepare(ctx):
+    """generate the sequences (main thread, ctx.rng) -- executed later by run_roots_exec in a worker thread"""
+    rng = ctx.rng
+    quick = ctx.tier == "quick"
+    hists = []
+    try:
+        import os
+        with open(os.path.join(core.VERIF, "corpus", "C16", "roots.json")) as fh:
+            for h in json.load(fh):
+                hists.append(h["ops"])
+        ctx.count("roots:corpus_sequences", len(hists))
+    except (OSError, ValueError, KeyError) as e:
+        ctx.extra["roots_corpus"] = "not read: %r" % (e,)
+    for _ in range(220 if quick else 2400):
+        hists.append(gen_roots_history(rng, rng.randint(3, 7) if quick else rng.randint(3, 12)))
+    return hists
+
+
+def run_roots_exec(hists, nserv):
+    """worker: run every sequence forwards and reversed; returns per sequence (msgs_f, obs_f, msgs_r, obs_r) or an error"""
+    servers = fresh_servers(nserv)
+    out = [None] * len(hists)
+
+    def work(j):
+        srv = servers[j % len(servers)]
+        for i in range(j, len(hists), len(servers)):
+            try:
+                mf, of = judge_roots(srv, hists[i], "forward")
+                mr, orv = judge_roots(srv, hists[i], "reversed")
+                out[i] = (mf, of, mr, orv)
+            except Exception as e:
+                out[i] = ("error", "%s: %s" % (type(e).__name__, e))
+    with ThreadPoolExecutor(max_workers=len(servers)) as ex:
+        list(ex.map(work, range(len(servers))))
+    return out
+
+
+def run_roots_report(ctx, hists, results, table):
+    srv = fresh_servers(1)[0]
+    # T2 rows of process_local_key against the Python specification, and both sweeps equal
+    nbad, ref_bad = 0, None
+    for key, o, o2 in zip(table["dom"], table["fwd"], table["rev"]):
+        loc, glob = plk_texts(*key[:6])
+        op = ["plk", loc, glob, key[6]]
+        ctx.evaluations += 2
+        msgs = spec_check(op, o)
+        if o != o2:
+            msgs.append("%s -> %s in the first sweep over the domain, %s in the reversed sweep in the same interpreter" % (op_txt(op), obs_txt(o), obs_txt(o2)))
+        if key[2] != 0 or key[4] != 0:
+            ctx.nontrivial(("plk", key))
+        if msgs:
+            nbad += 1
+            if ref_bad is None or (o[0] == "ok" and ref_bad[1][0] != "ok"):
+                ref_bad = (op, o, o2, msgs)
+    ctx.count("rows:process_local_key", len(table["dom"]))
+    ctx.count("rows:process_local_key_failing", nbad)
+    terms, kept, failed = [], [], []
+    for ops, res in zip(hists, results):
+        ctx.count("roots:sequences")
+        if res[0] == "error":
+            failed.append((ops, "forward", ["the sequence could not be executed in a fresh interpreter: " + res[1]]))
+            continue
+        mf, of, mr, orv = res
+        ctx.evaluations += 2 * len(ops)
+        for op, o in zip(ops, of):
+            ctx.count("roots:op_" + op[0])
+            if op[0] == "rn" and isinstance(o, dict):
+                ctx.count("roots:rn_" + ("raises" if "exc" in o else "root" if o.get("root2", ["x"])[0] == "ok" else "no_root"))
+                if o.get("attrs") and isinstance(o["attrs"][2], str) and deg_facts(o["attrs"][2])["sym"] is None:
+                    ctx.count("roots:rn_secondary_via_process_local_key")
+                if o.get("attrs") and isinstance(o["attrs"][1], str) and deg_facts(o["attrs"][1])["sym"] is None:
+                    ctx.count("roots:rn_primary_via_process_local_key")
+            elif op[0] == "plk":
+                ctx.count("roots:plk_" + ("raises" if o[0] == "exc" else "altered" if deg_facts(op[1])["acc"] else "plain"))
+        if mf:
+            failed.append((ops, "forward", mf))
+        elif mr:
+            failed.append((ops, "reversed", mr))
+        else:
+            ctx.nontrivial(("roots", json.dumps(ops, sort_keys=True)))
+            for seq, obs in ((ops, of), (ops[::-1], orv)):
+                t = roots_term(seq, obs)
+                if t is None:
+                    ctx.count("roots:sequences_outside_the_model")
+                else:
+                    terms.append(t)
+                    kept.append((seq, obs))
+            if len(ctx.samples) < 6 and len(kept) in (2, 40):
+                ctx.sample({"roots_sequence": [[op_txt(op), obs_txt(o)] for op, o in zip(ops, of)]})
+    ctx.count("roots:sequences_failing", len(failed))
+    failed.sort(key=lambda x: (0 if "fresh interpreter ->" in x[2][0] else 1, len(x[0])))
+    for ops, order, msgs in failed[:3]:
+        small = shrink_roots(srv, ops, order)
+        try:
+            m2 = judge_roots(srv, small, "forward")[0] or msgs
+        except Exception:
+            m2 = msgs
+        ctx.violation("chord-root / local-key arithmetic, calls in one interpreter (%s order): %s" % (order, "; ".join(m2)[:900]),
+                      {"kind": "roots", "ops": small, "order": "forward", "failures": m2})
+    if ref_bad is not None:     # after the sequences: a row of the sweep is reproduced by the whole sweep only
+        op, o, o2, msgs = ref_bad
+        alone = srv.ref(op)
+        ctx.violation("local-key arithmetic, sweep over the whole domain in one interpreter (%d of %d rows fail): %s; alone in a fresh interpreter -> %s"
+                      % (nbad, len(table["dom"]), "; ".join(msgs)[:600], obs_txt(alone)),
+                      {"kind": "roots_table", "op": op, "failures": msgs})
+    if terms:
+        try:
+            failing = ctx.coq_failing("roots", "From PV Require Import Model.C16 Model.C16_Roots.", "", terms, "roots_hist_ok",
+                                      shard=max(60, (len(terms) + core.NJOBS - 1) // core.NJOBS), ty="roots_case")
+            detail = [[[op_txt(op), obs_txt(o)] for op, o in zip(*kept[i])] for i in failing[:3]]
+        except RuntimeError as e:
+            failing, detail = [-1], str(e)[-1500:]
+        ctx.obligation("correspondence: the Gallina machine of Model/C16_Roots.v (process_local_key, find_root_note, find_bass_note, "
+                       "transpose_note over the module-level tables) replays %d observed call sequences (forwards and reversed)" % len(terms),
+                       not failing, detail)
+        for i in failing[:3]:
+            if i < 0:
+                ctx.violation("roots correspondence could not be evaluated in Coq: " + str(detail)[-600:], {"kind": "coq", "error": detail}, no_input=True)
+            elif not any((isinstance(o, dict) and ("exc" in o or o.get("root2", ["ok"])[0] != "ok" or o.get("bass2", ["ok"])[0] != "ok"))
+                         or (isinstance(o, list) and o[0] == "exc") for o in kept[i][1]):
+                ctx.violation("Coq machine of the chord-root arithmetic and the implementation disagree (the Python oracle accepted the sequence)",
+                              {"kind": "roots", "ops": kept[i][0], "order": "forward"})
+    else:
+        ctx.obligation("correspondence: roots machine", False, "no sequence reached Coq")
+
+
 def run(ctx):
     ctx.rule = ("T2: _transpose_note_inplace executed on all 7 steps x 5 alterations x 9 octaves x 39 classes x 2 directions "
                 "(24570 rows) and transpose_note on 7 x 5 x 39 x 2 (2730 rows), graphs re-proved in the kernel; driver cases = "
@@ -672,14 +1439,26 @@ def run(ctx):
                 "sweep: transpose(part of 1-3 notes incl. tie chains and grace notes, iv) 18%, transpose_note 14%, .semitones 16%, "
                 "change_quality 22%, quality:= 8%, number:= 8%, direction:= 6%, validate 5%, str 3%; after EVERY step the result "
                 "(step, alter, octave of every note; the argument part untouched) is judged by the diatonic specification at the "
-                "table size of the object's CURRENT fields and against a freshly constructed Interval of those fields.")
+                "table size of the object's CURRENT fields and against a freshly constructed Interval of those fields.  "
+                "ROOTS stream (chord roots / local keys; state carried at module level between calls): process_local_key tabulated "
+                "on 7 degrees x case x accidentals -2..2 x 7 key steps x key alterations -2..2 x mode x return_step_alter (9800 rows, "
+                "swept forwards and then reversed in ONE fresh interpreter); 220 (thorough 2400) generated sequences of 3-8 calls (35% of the calls = an earlier call of the sequence with exactly ONE argument changed) -- "
+                "process_local_key 40%, RomanNumeral from text 18%, RomanNumeral with explicit (altered) degrees 22%, transpose_note "
+                "with a fresh Interval 10%, transpose_note with a module-level Roman2Interval entry 10%; 75% of the sequences keep "
+                "returning to one degree number / mode / key with different accidentals, 35% repeat a call -- each executed forwards "
+                "and reversed in a child forked from a fresh interpreter; every observation against the diatonic arithmetic of its "
+                "own arguments and against the same call alone in a fresh interpreter.  Non-trivial = sequences passing both orders; "
+                "table rows with an accidental on the degree or the key.")
     ctx.trusted = ["Coq 8.16.1 kernel incl. vm_compute",
                    "T2 tabulator and flattening/fingerprint code in harness/props/c16.py (runs the real functions, prints Coq literals; "
                    "step letters are interned C=0..B=6, alter None is read as 0)",
                    "Python-side diatonic oracle used to name the failing input", "determinism of the tabulated pure functions",
                    "fingerprints of non-pitch attributes are compared as 48-bit SHA-1 prefixes inside Coq (full strings in Python)",
                    "history stream: the operation runner / field reader of harness/props/c12.py (run_iv_history) and the printing of "
-                   "observed histories as Coq terms"]
+                   "observed histories as Coq terms",
+                   "roots stream: the fresh-interpreter server (fork per request) and the reading of degree texts / key names into the "
+                   "facts the model takes (deg_facts, key_facts, parse_name in harness/props/c16.py); string handling of "
+                   "process_local_key / RomanNumeral is compared by the direct oracle only"]
     ctx.assumptions = ["interval numbers 1..7 (the 39 classes of INTERVALCLASSES); compound intervals are outside the property",
                        "alter None and alter 0 denote the same spelling"]
     T = gen()
@@ -697,17 +1476,30 @@ def run(ctx):
         ctx.sample({"table_row": {"interval": [g0[0], QUALS[g0[1]], "up" if g0[2] else "down"], "in": g0[3][40][0], "out": g0[3][40][1]}})
     bad = oracle_tables(T)
     ctx.log('tables written, %d rows, %d oracle failures' % (nrows, len(bad)))
+    # roots stream: the call sequences are generated here (ctx.rng) and executed in fresh interpreters by a worker
+    # thread while Coq checks the theorems
+    import threading
+    roots_hists = run_roots_prepare(ctx)
+    roots_box = {}
+
+    def _roots_worker():
+        try:
+            roots_box["results"] = run_roots_exec(roots_hists, 3)
+            roots_box["done_at"] = round(time.time() - ctx.t0, 1)
+        except BaseException as e:   # noqa
+            roots_box["error"] = "%s: %s" % (type(e).__name__, e)
+    roots_thread = threading.Thread(target=_roots_worker, daemon=True)
+    roots_thread.start()
     pre = prebuild_gen(ctx)
     ctx.log('table shards built')
     # T1 tie (harness/t1.py): see c12.py
     t1_ok = t1.tie(ctx, "C16")
     ctx.log('T1 tie: %s' % t1_ok)
-    ok, why = ctx.coq_props(expect_min=27)
+    ok, why = ctx.coq_props(expect_min=38)
     ctx.log('Props/C16.v checked: %s %s' % (ok, why[:300]))
     for what, rep in bad[:8]:
         ctx.violation(what, rep)
-    if not ok and not bad and t1_ok:
-        ctx.violation("proof obligations of Props/C16.v no longer check: " + why[:1500], {"theorem_or_build": why, "prebuild": pre}, no_input=True)
+    props_broken = (not ok and not bad and t1_ok)   # reported at the end, and only when no concrete failing input was found
     ctx.extra["exhaustive"] = True
     ctx.extra["exhaustive_note"] = "the arithmetic domain named by the property is enumerated completely; scores/parts are sampled"
     run_driver(ctx)
@@ -716,6 +1508,32 @@ def run(ctx):
     # harness/props/c12.py run_histories, Model/C12_Interval.v)
     from props import c12 as hist12
     hist12.run_histories(ctx, with_tr=True, objects=False)
+    # chord roots / local keys: sequences of calls in one interpreter, forwards and reversed
+    roots_thread.join()
+    ctx.log('roots: %d sequences executed in fresh interpreters (worker finished at %ss)' % (len(roots_hists), roots_box.get('done_at')))
+    try:
+        if "results" in roots_box:
+            run_roots_report(ctx, roots_hists, roots_box["results"], T["roots"])
+        else:
+            ctx.violation("the roots stream could not be executed: " + roots_box.get("error", "?"), {"kind": "roots_error"}, no_input=True)
+        ctx.extra["roots_tables_reflected"] = {"Roman2Interval": T["roots"]["reflected"], "LOCAL_KEY_TRASPOSITIONS_DCML": T["roots"]["lk_reflected"]}
+    finally:
+        close_servers()
+    if props_broken and not ctx.violations:
+        ctx.violation("proof obligations of Props/C16.v no longer check: " + why[:1500], {"theorem_or_build": why, "prebuild": pre}, no_input=True)
+
+
+def replay_roots(r):
+    srv = fresh_servers(1)[0]
+    ops = r["ops"]
+    obs = srv.run(ops)
+    print("one interpreter, in this order:")
+    for i, (op, o) in enumerate(zip(ops, obs)):
+        ref = srv.ref(op)
+        print("  %d. %s -> %s%s" % (i + 1, op_txt(op), obs_txt(o), "" if o == ref else "      [alone in a fresh interpreter: %s]" % obs_txt(ref)))
+    print("oracle now says:", judge_roots(srv, ops)[0] or "every call returned the diatonic arithmetic of its own arguments, as in a fresh interpreter")
+    close_servers()
+    return 0
 
 
 def replay(obj):
@@ -730,6 +1548,19 @@ def replay(obj):
     if k == "history":
         from props import c12 as hist12
         return hist12.replay_history(r)
+    if k == "roots":
+        return replay_roots(r)
+    if k == "roots_table":
+        srv = fresh_servers(1)[0]
+        fwd, rev = srv.run([["plk_table", "twice"]])[0]
+        dom = plk_domain()
+        for key, o, o2 in zip(dom, fwd, rev):
+            op = ["plk"] + list(plk_texts(*key[:6])) + [key[6]]
+            if op == r["op"]:
+                print("%s: in the sweep -> %s, in the reversed sweep -> %s, alone in a fresh interpreter -> %s; diatonic arithmetic: %r"
+                      % (op_txt(op), obs_txt(o), obs_txt(o2), obs_txt(srv.ref(op)), spec_plk(op[1], op[2], op[3])))
+        close_servers()
+        return 0
     if k == "note":
         note = S.Note(r["step"], r["octave"], r["alter"])
         M._transpose_note_inplace(note, S.Interval(r["number"], r["quality"], r["direction"]))
